@@ -839,3 +839,13 @@ func init() {
 			Old: "if va.IsNil() || isSelfPointer(va) {", New: "if va.IsNil() {", Rule: "CYCLE-2"},
 	)
 }
+
+func init() {
+	addMutants(
+		// ---- round-o strengthening
+		Mutant{ID: "v19-peek-state-cleared-only-on-success", Props: []string{"C09"}, File: "v1/stream.go", Func: "Decoder.Decode",
+			Old: "\tdec.hadPeeked = false\n\tdec.hadEOF = false\n\treturn jsonv2.Unmarshal(b, v, dec.opts)", New: "\tif err := jsonv2.Unmarshal(b, v, dec.opts); err != nil {\n\t\treturn err\n\t}\n\tdec.hadPeeked = false\n\tdec.hadEOF = false\n\treturn nil", Rule: "V1-9"},
+		Mutant{ID: "bitset1-narrow-mask-in-has", Props: []string{"C04", "C08", "C15"}, File: "arshal_default.go", Func: "uintSet.has",
+			Old: "iHi, iLo := int(i/64), i%64\n\t\treturn iHi", New: "iHi, iLo := int(i>>6), i&0x1f\n\t\treturn iHi", Rule: "BITSET-1"},
+	)
+}
